@@ -2,9 +2,9 @@ SPECIFICATION Spec
 CONSTANTS
   N = 3
   Excluded = {3}
-  Intruders = {3}
+  Intruders = {}
   Checks <- AllChecks
   ForgedKinds <- AllKinds
   MaxForged = 2
   MaxDup = 1
-INVARIANTS TypeOK HistoryClean TransitionSound ConsumedClean EqualKeys KeyFromOperating MisbehavedIsExcluded OperatingNeverFail IntrudersNeverJoin
+INVARIANTS TypeOK HistoryClean TransitionSound ConsumedClean EqualKeys KeyFromOperating MisbehavedIsExcluded OperatingNeverFail IntrudersNeverJoin IntruderFailsAtRoundThree
